@@ -54,21 +54,91 @@ def _call(chunk: List[Any]) -> List[Any]:
     return out
 
 
+def _loop(conn: Any) -> None:
+    while True:
+        try:
+            msg = conn.recv()
+        except (EOFError, OSError):
+            return
+        if msg is None:
+            return
+        conn.send(_call(msg))
+
+
+class _Worker:
+    def __init__(self, ctx: Any):
+        self.conn, child = ctx.Pipe()
+        self.proc = ctx.Process(target=_loop, args=(child,), daemon=True)
+        self.proc.start()
+        child.close()
+        self.current: Optional[List[Any]] = None
+
+
 def pmap(fn: Callable[[Any], Any], items: Iterable[Any], budget_s: Optional[float] = None, chunk: int = 8):
-    """Yield (status, item, result) for every item, using NPROC forked workers."""
+    """Yield (status, item, result) for every item, using NPROC forked workers.
+
+    A worker that dies (a solver crash) does not stall the run: its chunk is retried item by item in a fresh
+    worker, and an item that kills its worker again is reported with status 'crashed' (counted inconclusive)."""
     global _FN, _DEADLINE
+    from collections import deque
+    from multiprocessing.connection import wait
+
     items = list(items)
     _FN = fn
     _DEADLINE = (time.time() + budget_s) if budget_s else None
-    chunks = [items[i : i + chunk] for i in range(0, len(items), chunk)]
-    if NPROC <= 1 or len(chunks) <= 1:
+    chunks = deque(items[i : i + chunk] for i in range(0, len(items), chunk))
+    if NPROC <= 1:
         for ch in chunks:
             yield from _call(ch)
         return
     ctx = mp.get_context("fork")
-    with ctx.Pool(NPROC) as pool:
-        for res in pool.imap_unordered(_call, chunks):
-            yield from res
+    workers = [_Worker(ctx) for _ in range(min(NPROC, max(1, len(chunks))))]
+    try:
+        while chunks or any(w.current is not None for w in workers):
+            for w in workers:
+                if w.current is None and chunks:
+                    w.current = chunks.popleft()
+                    try:
+                        w.conn.send(w.current)
+                    except (BrokenPipeError, OSError):
+                        pass
+            busy = [w for w in workers if w.current is not None]
+            if not busy:
+                continue
+            ready = wait([w.conn for w in busy], timeout=2.0)
+            for w in busy:
+                if w.conn in ready:
+                    try:
+                        res = w.conn.recv()
+                    except (EOFError, OSError):
+                        res = None
+                    if res is not None:
+                        w.current = None
+                        yield from res
+                        continue
+                elif w.proc.is_alive():
+                    continue
+                # the worker died while holding w.current
+                lost = w.current or []
+                w.proc.join(timeout=1)
+                idx = workers.index(w)
+                workers[idx] = _Worker(ctx)
+                if len(lost) > 1:
+                    for it in reversed(lost):
+                        chunks.appendleft([it])
+                else:
+                    for it in lost:
+                        yield ("crashed", it, "worker process died (solver crash) while exploring this case")
+    finally:
+        for w in workers:
+            try:
+                w.conn.send(None)
+            except Exception:
+                pass
+        for w in workers:
+            w.proc.join(timeout=2)
+            if w.proc.is_alive():
+                w.proc.terminate()
 
 
 # ------------------------------------------------------------------------------------------------
@@ -292,5 +362,10 @@ def collect(report: Report, results: Iterable[Any]) -> None:
             report.absorb(res)
         elif status == "skipped":
             report.skipped += 1
+        elif status == "crashed":
+            report.inconclusive += 1
+            report.extra["crashed_cases"] = report.extra.get("crashed_cases", 0) + 1
+            if len(report.inconclusive_samples) < 10:
+                report.inconclusive_samples.append(f"{item!r}: {res}")
         else:
             report.harness_errors.append(f"{item!r}: {res}")
